@@ -441,6 +441,11 @@ impl<T: Copy> Buffer<T> {
     ///
     /// Will only be called from the read buffer.
     pub(in crate::circular_buffer) fn consume(&self, n: usize) {
+        if n == 0 {
+            // Nothing consumed, so no tags to discard. (Without this, the
+            // wrap-around branch below would discard every tag.)
+            return;
+        }
         let (lock, cv) = &*self.state;
         let mut s = lock.lock().unwrap();
         assert!(
